@@ -107,6 +107,39 @@ def run_dsl(case):
     finally:
         c.cleanup()
 
+def run_bptk(case):
+    """the same through the framework: a scenario file with a 'source' entry, bptk.run_scenarios as a dataframe"""
+    import tempfile, shutil, json as _json
+    model, start, stop, dt_text, reciprocal = case
+    d = tempfile.mkdtemp(prefix="c04_bptk_")
+    cwd = os.getcwd()
+    try:
+        os.makedirs(os.path.join(d, "scenarios")); os.makedirs(os.path.join(d, "models"))
+        with open(os.path.join(d, "models", "m.stmx"), "w") as f:
+            f.write(xmile("m", start, stop, dt_text, MODELS[model]["variables"], reciprocal=reciprocal))
+        with open(os.path.join(d, "scenarios", "s.json"), "w") as f:
+            _json.dump({"xm": {"model": "models/m", "source": "models/m.stmx", "base_constants": {}, "scenarios": {"base": {"constants": {}}}}}, f)
+        os.chdir(d)
+        sys.path.insert(0, d)
+        from BPTK_Py import bptk
+        b = bptk()
+        names = sorted(MODELS[model]["init"])
+        df = b.run_scenarios(scenario_managers=["xm"], scenarios=["base"], equations=names, return_format="df")
+        dt = (1.0 / int(dt_text)) if reciprocal else float(dt_text)
+        ref, grid = reference(model, float(start), float(stop), dt)
+        if len(df.index) != len(grid):
+            return "bptk.run_scenarios returns %d rows, the grid from %r to %r with dt %r has %d points" % (len(df.index), start, stop, dt, len(grid))
+        for name in names:
+            col = [c for c in df.columns if name in c][0]
+            for k, t in enumerate(grid):
+                v = float(df[col].iloc[k])
+                if abs(v - ref[name][k]) > 1e-9 * max(1.0, abs(ref[name][k])):
+                    return "run_scenarios: %s at row %d (t=%r) = %r, explicit Euler gives %r (start=%r, dt=%r)" % (name, k, t, v, ref[name][k], start, dt)
+        return None
+    finally:
+        os.chdir(cwd)
+        shutil.rmtree(d, ignore_errors=True)
+
 def run_lerp(_case=None):
     """graphical functions: linear between the points, clamped outside (XMILE continuous gf)"""
     c = Compiled(xmile("m", 0, 4, 1, [dict(kind="aux", name="curve", eqn="TIME * 10 - 8", gf=GF)]))
@@ -121,7 +154,7 @@ def run_lerp(_case=None):
     finally:
         c.cleanup()
 
-case = ('tank', 0, 4.0, '0.1', False)
+case = ('tank', 2.5, 15.5, '3', True)
 bad = run(case)
 print("case:", case)
 print("FAIL: " + bad if bad else "PASS")
